@@ -761,7 +761,7 @@ def make_rm32(mnemonic, opcode, o):
         "reg": o,
         "rm_written": mnemonic in RM_WRITING_MNEMONICS,
     }
-    return type(mnemonic.title(), (RmBase,), members)
+    return type(mnemonic.title(), (RmBase32,), members)
 
 
 def make_rm16(mnemonic, opcode, o):
